@@ -1178,7 +1178,8 @@ class LogExpSinh(OneDGrid):
             raise ValueError(f"npoints must be odd, given {npoints}")
         m = int((npoints - 1) / 2)
         k = np.arange(-m, m + 1)
-        points = np.log(np.exp(np.pi * np.sinh(k * h) / 2) + 1)
+        # log1p keeps the small nodes distinct (log(1 + tiny) would round all of them to zero)
+        points = np.log1p(np.exp(np.pi * np.sinh(k * h) / 2))
         weights = np.exp(np.pi * np.sinh(k * h) / 2) * np.pi * h * np.cosh(k * h) / 2
         weights /= np.exp(np.pi * np.sinh(k * h) / 2) + 1
         super().__init__(points, weights, (0, np.inf))
